@@ -379,14 +379,25 @@ def one_config(job):
                 lens = [len(p) for p in s.points]
                 grew = [i for i, (a, b) in enumerate(zip(prev_lens, lens)) if a != b] if len(prev_lens) == len(lens) else None
                 pure = (stride == 1 and prev_term is not None and grew is not None and len(grew) <= 1 and len(s.bounds) == nb0 and bool(s.explored) == ex0)
+                case = None
                 if len(out['codec_cases']) < 40 and (k % 3 == 0 or phase in ('after-bound', 'end-exploration', 'first')):
                     sh = grew[0] if (pure and grew) else (len(s.bounds) - 1)
+                    case = True
                     out['codec_cases'].append(dict(k=k, phase=phase, abs=abs_sampler(s, vtok, btoks, nn_keys), full=tW, cur=tF, prev=prev_term if pure else None, shell=sh))
                 prev_term, prev_lens = tF, lens
             except FailClosed as e:
                 out['fails'].append((str(e), k))
             try:
                 s2, _ = make_sampler(nautilus, cfg, snap)
+                if case:
+                    # reader model: read_file on the dump of the checkpoint = abstraction of the resumed object
+                    scratch2 = os.path.join(d, 'full2.hdf5')
+                    s2w = copy.copy(s2)
+                    s2w.filepath = None
+                    s2w.write(scratch2, overwrite=True)
+                    _, _, btoks2 = dump_file(scratch2, vtok, nn_keys)
+                    dfl = (vtok.get(np.zeros((0, s2.n_dim))), vtok.get(np.zeros(0, dtype=int)), vtok.get(np.zeros(0)))
+                    out['codec_cases'][-1].update(resumed=abs_sampler(s2, vtok, btoks2, nn_keys), n=len(s2.bounds), dflt=dfl)
                 ca, cb = canon_sampler(s), canon_sampler(s2)
                 out['compared'] += 1
                 for key in SAMPLER_STATE:
@@ -486,6 +497,10 @@ def main(run: Run, audit):
             if c['prev'] is not None:
                 defs.append('Definition p%d : h5 := %s.' % (i, c['prev']))
                 chk += '; h5_eqb 6 (upd_file p%d a%d %d) c%d' % (i, i, c['shell'], i)
+            if c.get('resumed'):
+                defs.append('Definition r%d := %s.' % (i, c['resumed']))
+                chk += '; match read_file (sf_static r%d) %d (%d%%positive, %d%%positive, %d%%positive) c%d with Some r => h5_eqb 6 (write_file r) (write_file r%d) | None => false end' % (
+                    (i, c['n']) + tuple(c['dflt']) + (i, i))
             defs.append('Definition chk%d := [%s].' % (i, chk))
         body = CODEC_PRELUDE + '\n'.join(defs) + '\nEval vm_compute in [%s].\n' % '; '.join('(%d%%nat, chk%d)' % (i, i) for i, _ in sh)
         rc, o_ = coq_eval(body, 'cases_C05', timeout=900)
@@ -508,7 +523,8 @@ def main(run: Run, audit):
             if not all(bits):
                 cfg_i, c = codec[i]
                 what = 'the model writer (SamplerCodec.write_file) of the live state differs from the real full write' if not bits[0] else \
-                       'write_shell_update applied to the previous file differs from the model update (SamplerCodec.upd_file) of that file'
+                       ('write_shell_update applied to the previous file differs from the model update (SamplerCodec.upd_file) of that file' if (c['prev'] is not None and not bits[1]) else
+                        'the model reader (SamplerCodec.read_file) applied to the checkpoint differs from the object Sampler(resume=True) builds')
                 broken.append('batch boundary %d (%s): %s' % (c['k'], c['phase'], what))
     if len(seen) != len(codec) and not broken:
         broken.append('no Coq verdict for %d sampler-codec cases' % (len(codec) - len(seen)))
